@@ -57,7 +57,10 @@ def budget(tier):
 
 
 def strategy(tier):
-    return st_program(cfg(tier))
+    from vf.checks import c03
+
+    # weights: mostly single-engine SQL programs; some (multi-engine base, final operation with options) cases of C03
+    return st.one_of(st_program(cfg(tier)), st_program(cfg(tier)), st_program(cfg(tier)), st.tuples(st.just("opt"), c03.st_case(tier)))
 
 
 # ---------------------------------------------------------------- marker coherence
@@ -109,8 +112,11 @@ def check_tree_markers(rel, what):
 # ---------------------------------------------------------------- raw trees
 
 
-def build_raw(prog, env, leaves, memo):
-    """Assemble the tree with the public dataclass constructors only (no Select, no factory methods)."""
+def build_raw(prog, env, leaves, memo, ops=None):
+    """Assemble the tree with the public dataclass constructors only (no Select, no factory methods).
+
+    ``ops`` optionally shares the operation objects between several assemblies of the same program (user code that
+    keeps operations around and applies them to temporary trees)."""
     from lsst.daf.relation import (
         BinaryOperationRelation,
         Calculation,
@@ -130,6 +136,16 @@ def build_raw(prog, env, leaves, memo):
     if id(prog) in memo:
         return memo[id(prog)]
     k = prog[0]
+    if ops is not None and id(prog) in ops:
+        op = ops[id(prog)]
+        if k in ("chain", "join"):
+            l, r = build_raw(prog[1], env, leaves, memo, ops), build_raw(prog[2], env, leaves, memo, ops)
+            out = BinaryOperationRelation(operation=op, lhs=l, rhs=r, columns=op.applied_columns(l, r))
+        else:
+            t = build_raw(prog[1], env, leaves, memo, ops)
+            out = UnaryOperationRelation(operation=op, target=t, columns=op.applied_columns(t))
+        memo[id(prog)] = out
+        return out
     if k == "leaf":
         wrapped = env.leafrels[prog[1]]
         bare = wrapped
@@ -137,7 +153,7 @@ def build_raw(prog, env, leaves, memo):
             bare = bare.target
         out = bare
     elif k in ("chain", "join"):
-        l, r = build_raw(prog[1], env, leaves, memo), build_raw(prog[2], env, leaves, memo)
+        l, r = build_raw(prog[1], env, leaves, memo, ops), build_raw(prog[2], env, leaves, memo, ops)
         if k == "chain":
             op = Chain()
         else:
@@ -146,7 +162,7 @@ def build_raw(prog, env, leaves, memo):
             op = Join(pred, min_columns=common, max_columns=common)
         out = BinaryOperationRelation(operation=op, lhs=l, rhs=r, columns=op.applied_columns(l, r))
     else:
-        t = build_raw(prog[1], env, leaves, memo)
+        t = build_raw(prog[1], env, leaves, memo, ops)
         if k == "calc":
             op = Calculation(prog[2], lib_e(prog[3]))
         elif k == "proj":
@@ -163,13 +179,99 @@ def build_raw(prog, env, leaves, memo):
             raise AssertionError(prog)
         out = UnaryOperationRelation(operation=op, target=t, columns=op.applied_columns(t))
     memo[id(prog)] = out
+    if ops is not None and k != "leaf":
+        ops[id(prog)] = out.operation
     return out
+
+
+def factory_calls_on_raw(prog, env, leaves, raw, stats):
+    """(d) factory methods applied to an unconformed SQL tree: the result is a conformed Select with the right rows."""
+    from lsst.daf.relation import Identity, Predicate
+    from lsst.daf.relation.sql import Select
+
+    cols = sorted(schema(prog, leaves), key=lambda c: c.qualified_name)
+    calls = [
+        ("with_only_columns(all)", lambda r: r.with_only_columns(set(r.columns)), prog),
+        ("[0:]", lambda r: r[0:], prog),
+        ("sorted([])", lambda r: r.sorted([]), prog),
+        ("with_rows_satisfying(True)", lambda r: r.with_rows_satisfying(Predicate.literal(True)), prog),
+        ("Identity().apply", lambda r: Identity().apply(r), prog),
+        ("transferred_to(own engine)", lambda r: r.transferred_to(r.engine), prog),
+        ("without_duplicates()", lambda r: r.without_duplicates(), ("dedup", prog)),
+        ("[1:3]", lambda r: r[1:3], ("slice", prog, 1, 3)),
+        ("chain(itself)", lambda r: r.chain(r), ("chain", prog, prog)),
+    ]
+    if cols:
+        calls.append(("with_only_columns(first)", lambda r: r.with_only_columns({cols[0]}), ("proj", prog, (cols[0],))))
+    pick = int(codec.digest((prog,))[:6], 16)
+    for i, (label, call, expected) in enumerate(calls):
+        try:
+            out = call(raw)
+        except Exception as e:
+            if is_order_loss(e):
+                stats.c["raw-factory:order-loss-refused"] += 1
+                continue
+            raise Violation("raw-factory-raised", f"{label} on raw tree raised {type(e).__name__}: {e}; raw {raw}", exc=e)
+        stats.c["raw-factory:calls"] += 1
+        if not isinstance(out, Select):
+            raise Violation("factory-result-not-select", f"{label} applied to the unconformed SQL tree {raw} returned {type(out).__name__} {out}", symptom=label)
+        if env.sql.conform(out) is not out:
+            raise Violation("conform-not-idempotent", f"{label} applied to the unconformed SQL tree {raw} returned {out}, which conform() replaces")
+        check_tree_markers(out, f"{label} on raw {fmt(prog, leaves)}")
+        if i % 3 == pick % 3:
+            try:
+                res = ev_bag(expected, leaves)
+                outs, ex = compile_and_run(env, out)
+            except (CompileError, DatabaseError):
+                stats.c["raw-factory:uncompilable-or-db-error"] += 1
+                continue
+            for which, rows in zip(("forward", "reverse"), outs):
+                bad = compare(res, rows)
+                if bad:
+                    raise Violation("raw-factory-changed-rows", f"[{which} scan] {label} on raw tree: {bad}; program {fmt(expected, leaves)}; result {out}; SQL {sql_text(ex)[:600]}")
+            stats.c["raw-factory:compared"] += 1
+
+
+def temporaries(prog, env, leaves, stats):
+    """(e) one long-lived engine conforming a series of short-lived hand-built trees (operations kept, trees dropped)."""
+    subs = [n for n in walk(prog) if n[0] != "leaf" and all(k in RAW_KINDS for k in kinds(n))]
+    if len(subs) < 2:
+        return
+    ops = {}
+    order = subs + subs[::-1]
+    for sub in order[:8]:
+        raw = build_raw(sub, env, leaves, {}, ops)
+        try:
+            conformed = env.sql.conform(raw)
+        except Exception as e:
+            if is_order_loss(e):
+                del raw
+                continue
+            raise Violation("conform-raised", f"conform(raw) raised {type(e).__name__}: {e}; raw tree {raw}", exc=e)
+        if set(conformed.columns) != set(schema(sub, leaves)):
+            raise Violation("conform-changed-columns", f"temporary tree {raw} conformed to {conformed} with columns {set(conformed.columns)}")
+        try:
+            res = ev_bag(sub, leaves)
+            outs, ex = compile_and_run(env, conformed)
+        except (CompileError, DatabaseError):
+            outs = None
+        if outs is not None:
+            bad = compare(res, outs[0])
+            if bad:
+                raise Violation("conform-changed-rows", f"temporary tree: {bad}; program {fmt(sub, leaves)}; raw {raw}; conformed {conformed}; SQL {sql_text(ex)[:600]}")
+            stats.c["temporaries:compared"] += 1
+        del raw, conformed
+
+
+RAW_KINDS = ("leaf", "calc", "proj", "sel", "dedup", "sort", "slice", "chain", "join")
 
 
 def run_case(case, stats):
     from lsst.daf.relation import ColumnError, EngineError
     from lsst.daf.relation.sql import Select
 
+    if case[0] == "opt":
+        return run_opt_case(case, stats)
     universe, leaves, prog = case
     env = Env(leaves)
     try:
@@ -234,6 +336,8 @@ def run_case(case, stats):
                                 "conform-changed-rows",
                                 f"[{which} scan] {bad}; program {fmt(prog, leaves)}; raw {raw}; conformed {conformed}; SQL {sql_text(ex)[:600]}",
                             )
+            factory_calls_on_raw(prog, env, leaves, raw, stats)
+            temporaries(prog, env, leaves, stats)
         levels = select_levels(rels[id(prog)]) if id(prog) in rels else 0
         if levels >= 2 or raw_ops >= 3:
             stats.mark_nontrivial(codec.digest(case), lambda: describe(case), cls=f"levels={min(levels, 4)}/raw_ops={min(raw_ops, 6)}")
@@ -241,7 +345,62 @@ def run_case(case, stats):
         env.close()
 
 
+def run_opt_case(case, stats):
+    """(f) relations that reach the SQL engine through preferred-engine options (backtracking, inserted transfers)."""
+    import itertools
+
+    from lsst.daf.relation import ColumnError, EngineError
+    from lsst.daf.relation.sql import Select
+
+    from vf.checks import c03
+
+    universe, leaves, S, base, final, *rest = case[1]
+    env = Env(leaves)
+    try:
+        rels = {}
+        try:
+            build_all(base, env, rels)
+        except BuildError:
+            return
+        root = rels[id(base)]
+        fixed_rel = env.leafrels[final[2][1]] if final[0] == "join" else None
+        seen_sql = 0
+        for pref, bits in itertools.product((0, 1, 2) if final[0] != "join" else (0,), range(8 if final[0] != "join" else 4)):
+            o = dict(backtrack=bool(bits & 1), transfer=bool(bits & 2))
+            if final[0] != "join":
+                o["require_preferred_engine"] = bool(bits & 4)
+                o["preferred_engine"] = env.engines[pref]
+            label = f"preferred=E{pref} " + " ".join(f"{k}={v}" for k, v in o.items() if k != "preferred_engine")
+            try:
+                res = c03.issue(final, root, fixed_rel, env, o)
+            except Exception:
+                continue  # which requests are refused is the subject of C03 / C20
+            for n in lib_nodes(res):
+                if n.engine is not env.sql or isinstance(n, Select):
+                    continue
+                # every SQL-engine node below the root is either wrapped by a Select or sits between a Select and
+                # its skip target; the root itself must be a Select
+                if n is res:
+                    raise Violation("factory-result-not-select", f"{final[0]} with {label} on {fmt(base, leaves)} returned {type(res).__name__} {res}", symptom="opt")
+            if res.engine is env.sql:
+                seen_sql += 1
+                if env.sql.conform(res) is not res:
+                    raise Violation("conform-not-idempotent", f"conform(r) is not r for the relation returned by {final[0]} with {label} on {fmt(base, leaves)}: {res}")
+            stats.c["markers_checked"] += check_tree_markers(res, f"{final[0]} with {label} on {fmt(base, leaves)}")
+        stats.c["opt:results-in-sql"] += seen_sql
+        if seen_sql:
+            stats.mark_nontrivial(codec.digest(case), lambda: describe(case), cls=f"opt/{final[0]}")
+    finally:
+        env.close()
+
+
 def describe(case):
+    if case[0] == "opt":
+        from vf.checks import c03
+
+        d = c03.describe(case[1])
+        d["kind"] = "multi-engine base + final operation, all option combinations"
+        return d
     return describe_case(*case)
 
 
